@@ -5,11 +5,12 @@ import pool_shared as ps
 import handles as H
 
 PROP = 'C02'
-VARIANTS = ['map', 'imap', 'imapu']
+VARIANTS = ['map', 'imap', 'imapu', 'feeder']
 REPLAYERS = {q: 'replayers/map_results.py' for q in (
     'pool.MapResult.__init__', 'pool.MapResult._set', 'pool.Pool._map_async', 'pool.IMapIterator._set',
     'pool.IMapIterator._set_length', 'pool.IMapIterator.next', 'pool.IMapUnorderedIterator._set', 'pool.ApplyResult.get',
     'pool.mapstar', 'pool.starmapstar')}
+REPLAYERS['pool.TaskHandler.body'] = 'replayers/feeder_length.py'
 
 ASSUMPTIONS = [
     'a worker sends exactly one result per (job, chunk index) and runs the function of the task it was sent (C03); the result '
@@ -157,7 +158,41 @@ def build_imap(w, variant):
     return out
 
 
+def build_feeder(w):
+    """TaskHandler.body: the length announced to an imap iterator (set_length) is the number of tasks of *its own*
+    task sequence -- an empty input must announce 0, whatever was sent before (C01's contract of the feeder, with the
+    index bookkeeping added)"""
+    import C01 as c01
+    body = [c for c in c01.build(w) if c.qualname == 'pool.TaskHandler.body'][0]
+    body.prop = PROP
+    base_ext = body.externals['<callable>']
+
+    def ext_callable_checked(ex, args, kw):
+        me = ex.root.scopes[0]['self']
+        put = ex.path.read_field(me, 'put')
+        is_put = len(args) == 2 and isinstance(args[1], STup)
+        if not is_put:
+            # set_length(n): n must be the number of tasks of the sequence just sent
+            seq = ex.lookup('taskseq')
+            n = ex.path.read_field(seq, 'len').e
+            if ex.handling:
+                # the sequence failed half-way: what was read so far
+                prove(ex, 'call:set_length.length_announced_after_a_failure_is_what_was_read',
+                      z3.And(as_arith(args[1]) >= 0, as_arith(args[1]) <= n))
+            else:
+                prove(ex, 'call:set_length.length_announced_is_the_number_of_tasks_of_this_sequence',
+                      as_arith(args[1]) == n)
+        return base_ext(ex, args, kw)
+    body.externals = dict(body.externals, **{'<callable>': ext_callable_checked})
+    body.loops[1]['inv'] = dict(body.loops[1]['inv'],
+                                index_of_the_last_task_read='i == ite(_i > 0, _i - 1, entry(i)) and taskseq == entry(taskseq)')
+    body.variants = ['feeder']
+    return [body]
+
+
 def build(w, variant='map'):
+    if variant == 'feeder':
+        return build_feeder(w)
     if variant != 'map':
         return build_imap(w, variant)
     ps.declare(w, kind='map')
